@@ -185,8 +185,18 @@ class SymMode(BaseMode):
                 self.failures.append(Failure(label, self.key(label, key), detail or f"{a!r} vs {b!r}",
                                              self._values_from(core.ENG.witness())))
             return ok
+        fa, fb = isinstance(a, (float, np.floating)), isinstance(b, (float, np.floating))
         a = core.lift(a)
         b = core.lift(b)
+        if op == "eq" and (fa or fb) and a.is_const() and b.is_const():
+            # a value computed by pgmpy entirely in Python floats (no symbol involved): compare numerically
+            self.n_obl += 1
+            self.n_structural += 1
+            x, y = float(a.const()), float(b.const())
+            ok = abs(x - y) <= 1e-9 * (1 + abs(y))
+            if not ok:
+                self.failures.append(Failure(label, self.key(label, key), detail or f"{x!r} vs {y!r}", self._values_from(core.ENG.witness())))
+            return ok
         if op == "eq" and a.q == b.q:
             self.n_obl += 1
             self.n_identity += 1
